@@ -61,12 +61,13 @@ def tree_tasks(cfg, alphabet, depth, split=2, **extra):
 def run_tree_block(task, visitor):
     """all leaves below task['prefix'], lexicographic; returns counters and violation records"""
     cfg, alphabet, depth, prefix = task["cfg"], task["alphabet"], task["depth"], tuple(task["prefix"])
-    k = len(alphabet)
+    nalph = len(alphabet)
+    batch = int(task.get("batch", 1))
     stats = dict(runs=0, nodes=0, trials=0)
     viol = []
     first = _first_new_depth(prefix)
     prev = None
-    for tail in itertools.product(range(k), repeat=depth - len(prefix)):
+    for tail in itertools.product(range(nalph), repeat=depth - len(prefix)):
         leaf = prefix + tail
         if prev is None:
             new_from = first
@@ -81,29 +82,32 @@ def run_tree_block(task, visitor):
         visitor.new_from = new_from
         stats["runs"] += 1
         dead = False
-        for j in range(1, depth + 1):
+        j = 0
+        while j < depth:
+            k = min(batch, depth - j)      # DoGlobalIteration(k): the observable moments are the batch ends
             try:
-                run.step(1)
+                run.step(k)
             except BaseException as e:   # the step-wise API must not raise for a well-behaved objective
                 if _horizon(run, cfg):
                     stats["horizon_stops"] = stats.get("horizon_stops", 0) + 1
-                elif j >= new_from:
-                    viol.append(dict(driver="tree", cfg=cfg, alphabet=alphabet, choices=list(leaf[:j]),
-                                     message=f"DoGlobalIteration raised {type(e).__name__}: {e} at trial {j}",
+                elif j + k >= new_from:
+                    viol.append(dict(driver="tree", cfg=cfg, alphabet=alphabet, choices=list(leaf[:j + k]), batch=batch,
+                                     message=f"DoGlobalIteration({k}) raised {type(e).__name__}: {e} after trial {j}",
                                      sig=dict(kind="step_raises")))
                 dead = True
                 break
-            stats["trials"] += 1
+            j += k
+            stats["trials"] += k
             new = j >= new_from
             if new:
-                stats["nodes"] += 1
+                stats["nodes"] += min(k, j - new_from + 1)
             msgs = visitor.node(run, j, new)
             for m in msgs or ():
-                viol.append(dict(driver="tree", cfg=cfg, alphabet=alphabet, choices=list(leaf[:j]), message=m,
+                viol.append(dict(driver="tree", cfg=cfg, alphabet=alphabet, choices=list(leaf[:j]), batch=batch, message=m,
                                  sig=dict(kind="node")))
         if not dead:
             for m in visitor.leaf(run) or ():
-                viol.append(dict(driver="tree", cfg=cfg, alphabet=alphabet, choices=list(leaf), message=m,
+                viol.append(dict(driver="tree", cfg=cfg, alphabet=alphabet, choices=list(leaf), batch=batch, message=m,
                                  sig=dict(kind="leaf")))
         if len(viol) > 50:
             break
@@ -112,16 +116,20 @@ def run_tree_block(task, visitor):
 
 def replay_tree(rec, visitor):
     cfg, alphabet, choices = rec["cfg"], rec["alphabet"], rec["choices"]
+    batch = int(rec.get("batch", 1))
     run = make_run(cfg, scripted(choices, alphabet), listeners=_listeners(visitor, cfg))
     visitor.begin(run, cfg)
     msgs = []
-    for j in range(1, len(choices) + 1):
+    j = 0
+    while j < len(choices):
+        k = min(batch, len(choices) - j)
         try:
-            run.step(1)
+            run.step(k)
         except BaseException as e:
             if not _horizon(run, cfg):
-                msgs.append(f"DoGlobalIteration raised {type(e).__name__}: {e} at trial {j}")
+                msgs.append(f"DoGlobalIteration({k}) raised {type(e).__name__}: {e} after trial {j}")
             return msgs
+        j += k
         msgs += list(visitor.node(run, j, True) or ())
     msgs += list(visitor.leaf(run) or ())
     return msgs
@@ -150,27 +158,31 @@ def dev_answer(default_fn, alts, dev):
     return answer
 
 
-def run_dev(cfg, default_fn, alts, dev, h, visitor):
-    """one complete execution of h trials; nodes after the last deviation are new"""
+def run_dev(cfg, default_fn, alts, dev, h, visitor, batch=1):
+    """one complete execution of h trials in DoGlobalIteration(batch) calls; nodes after the last deviation are new"""
     run = make_run(cfg, dev_answer(default_fn, alts, dev), listeners=_listeners(visitor, cfg))
     visitor.begin(run, cfg)
     new_from = max([p for p, _ in dev], default=1)
     visitor.new_from = new_from
     msgs_all = []
     nodes = 0
-    for j in range(1, h + 1):
+    j = 0
+    while j < h:
+        k = min(batch, h - j)
         try:
-            run.step(1)
+            run.step(k)
         except BaseException as e:
             if _horizon(run, cfg):
-                visitor.horizon_stop = j
+                visitor.horizon_stop = j + 1
                 for m in visitor.leaf(run) or ():
-                    msgs_all.append((j - 1, m))
-                return nodes, j - 1, msgs_all
-            msgs_all.append((j, f"DoGlobalIteration raised {type(e).__name__}: {e} at trial {j}"))
-            return nodes, j - 1, msgs_all
+                    msgs_all.append((j, m))
+                return nodes, j, msgs_all
+            msgs_all.append((j + k, f"DoGlobalIteration({k}) raised {type(e).__name__}: {e} after trial {j}"))
+            return nodes, j, msgs_all
+        j += k
         new = j >= new_from
-        nodes += new
+        if new:
+            nodes += min(k, j - new_from + 1)
         for m in visitor.node(run, j, new) or ():
             msgs_all.append((j, m))
     for m in visitor.leaf(run) or ():
